@@ -64,6 +64,14 @@ UNITS['U11'] = dict(
                  'heaps hold fewer than usize::MAX/2 - 2 elements (index arithmetic 2*node+2)'],
     not_covered=['multiset preservation of (key, value) pairs by heap_replace', 'TopN::execute / finalize (sort_unstable_by closures)'])
 
+UNITS['U08v'] = dict(
+    kind='verus', tpl='contracts/U08v_binops.vx',
+    title='binary_operator.rs: execute() of Binary{,VS,SV}Operator, CheckedBinary{,VS,SV}Operator, NullableCheckedBinary{,VS,SV}Operator (generic over Op)',
+    assumptions=['R6: scratchpad bindings lifted to parameters; Scratchpad aliasing discipline (distinct BufferRefs do not alias) is assumed (A-planner)',
+                 'R11: zip/enumerate loop headers desugared to index loops over min(len); R15: `b |= e` on bools rewritten to `b = b || (e)`',
+                 'assumed contract of an operator kernel (traits BinaryOp / CheckedBinaryOp with spec functions) - instantiated by U08k/U07k harnesses over the real kernels'],
+    not_covered=['init()/inputs()/outputs() plumbing of the operators'])
+
 UNITS['U09k'] = dict(
     kind='kani', crate='kani/U09', needs_lock=True,
     title='aggregate.rs / merge_aggregate.rs: SumI64, Count, MaxI64, MinI64 accumulate/combine and Combinable<i64>::combine (complete)',
@@ -141,12 +149,12 @@ PROPS = {
                 level_note='std sort_by/sort_unstable_by, the top-n driver and the planner choice between sort and top-n are not covered',
                 technique='contract-based deductive verification (Verus + Kani) of extracted functions',
                 assumptions=[], not_covered=['SortBy*::execute (std sort)', 'TopN::execute/finalize']),
-    'C03': dict(level='proof', units=['U01', 'U05k', 'U07k'],
+    'C03': dict(level='proof', units=['U01', 'U05k', 'U07k', 'U08v'],
                 level_text='complete Kani proofs of comparison kernels and constant translation; Verus proof of null bitmap primitives',
                 level_note='compile_expr glue, LIKE/regex, string dictionary comparisons not covered yet',
                 technique='contract-based deductive verification (Kani complete harnesses + Verus) of extracted / path-included real code',
                 assumptions=[], not_covered=[]),
-    'C06': dict(level='proof', units=['U08k', 'U09k'],
+    'C06': dict(level='proof', units=['U08k', 'U08v', 'U09k'],
                 level_text='complete (loop-free, full-domain) Kani proofs of the checked arithmetic kernels',
                 level_note='planner choice of checked vs unchecked node is not covered',
                 technique='contract-based deductive verification (Kani complete harnesses) of the real operator file',
